@@ -392,7 +392,9 @@ class Interp:
                     return fn(l, r)
         hook = self.hooks.get("compare")
         if hook is not None:
-            return hook(self, op, l, r, node)
+            res = hook(self, op, l, r, node)
+            if res is not NotImplemented:
+                return res
         self.unknown(f"comparison of {l!r} and {r!r}", node)
 
     def eval_BinOp(self, e, env):
